@@ -27,6 +27,7 @@ import os
 import shutil
 import subprocess
 import symtable
+import copy
 import sys
 import tempfile
 
@@ -196,6 +197,103 @@ class EarlyReturn(ast.NodeTransformer):
     visit_AsyncFunctionDef = _fn
 
 
+class ChainCmp(ast.NodeTransformer):
+    """`a <= x <= b` -> `a <= x and x <= b` when the middle operand is free of side effects"""
+
+    def visit_Compare(self, n):
+        self.generic_visit(n)
+        if len(n.ops) > 1 and all(pure(c) for c in n.comparators[:-1]):
+            parts, left = [], n.left
+            for op, right in zip(n.ops, n.comparators):
+                parts.append(ast.Compare(left=copy.deepcopy(left), ops=[op], comparators=[copy.deepcopy(right)]))
+                left = right
+            return ast.copy_location(ast.BoolOp(op=ast.And(), values=parts), n)
+        return n
+
+
+class DeMorgan(ast.NodeTransformer):
+    """`not (a and b)` -> `not a or not b`, `not (a or b)` -> `not a and not b`; and for a plain `if a and b: X else: Y`
+    nothing (covered by ifswap).  Conditions `a or b` used as an if-test become `not (not a and not b)`."""
+
+    def visit_UnaryOp(self, n):
+        self.generic_visit(n)
+        if isinstance(n.op, ast.Not) and isinstance(n.operand, ast.BoolOp):
+            op = ast.Or() if isinstance(n.operand.op, ast.And) else ast.And()
+            return ast.copy_location(ast.BoolOp(op=op, values=[ast.UnaryOp(op=ast.Not(), operand=v) for v in n.operand.values]), n)
+        return n
+
+    def visit_If(self, n):
+        self.generic_visit(n)
+        if isinstance(n.test, ast.BoolOp) and isinstance(n.test.op, ast.Or):
+            n.test = ast.UnaryOp(op=ast.Not(), operand=ast.BoolOp(op=ast.And(), values=[ast.UnaryOp(op=ast.Not(), operand=v) for v in n.test.values]))
+        return n
+
+
+class RetTernary(ast.NodeTransformer):
+    """`if c: return A` directly followed by `return B` -> `return A if c else B` (A, B expressions; no else branch)"""
+
+    def _blocks(self, node):
+        for fld in ("body", "orelse", "finalbody"):
+            lst = getattr(node, fld, None)
+            if isinstance(lst, list) and lst and isinstance(lst[0], ast.stmt):
+                i = 0
+                while i + 1 < len(lst):
+                    a, b = lst[i], lst[i + 1]
+                    if isinstance(a, ast.If) and not a.orelse and len(a.body) == 1 and isinstance(a.body[0], ast.Return) and \
+                            a.body[0].value is not None and isinstance(b, ast.Return) and b.value is not None:
+                        new = ast.Return(value=ast.IfExp(test=a.test, body=a.body[0].value, orelse=b.value))
+                        lst[i:i + 2] = [ast.copy_location(new, a)]
+                        continue
+                    i += 1
+
+    def generic_visit(self, node):
+        super().generic_visit(node)
+        self._blocks(node)
+        return node
+
+
+def name_constants(src: str) -> str:
+    """Every int literal >= 2 (and every float literal) used inside a function body gets a module-level name
+    `_MM_K_<value>` defined right after the imports, and the function uses the name ("magic numbers -> named constants")."""
+    tree = ast.parse(src)
+    used = {}
+
+    class T(ast.NodeTransformer):
+        depth = 0
+
+        def visit_FunctionDef(self, n):
+            # defaults, decorators and annotations stay as they are
+            self.depth += 1
+            n.body = [self.visit(b) for b in n.body]
+            self.depth -= 1
+            return n
+        visit_AsyncFunctionDef = visit_FunctionDef
+
+        def visit_JoinedStr(self, n):
+            return n
+
+        def visit_Constant(self, n):
+            v = n.value
+            if self.depth and not isinstance(v, bool) and ((isinstance(v, int) and v >= 2) or (isinstance(v, float) and v == v and abs(v) != float("inf"))):
+                nm = "_MM_K_" + repr(v).replace(".", "_").replace("-", "m").replace("+", "")
+                used[nm] = v
+                return ast.copy_location(ast.Name(id=nm, ctx=ast.Load()), n)
+            return n
+    tree = T().visit(tree)
+    if not used:
+        return src
+    i = 0
+    body = tree.body
+    if body and isinstance(body[0], ast.Expr) and isinstance(body[0].value, ast.Constant) and isinstance(body[0].value.value, str):
+        i = 1
+    while i < len(body) and isinstance(body[i], (ast.Import, ast.ImportFrom)):
+        i += 1
+    defs = [ast.Assign(targets=[ast.Name(id=k, ctx=ast.Store())], value=ast.Constant(value=v)) for k, v in sorted(used.items())]
+    tree.body = body[:i] + defs + body[i:]
+    ast.fix_missing_locations(tree)
+    return ast.unparse(tree)
+
+
 class Delegate(ast.NodeTransformer):
     """every plain instance method `m(self, a, b=1)` of a class (no decorators, not a dunder, no generator, no nested
     `nonlocal`) keeps its signature and docstring but hands its work to a new private method:
@@ -330,8 +428,10 @@ def transform(kind: str, src: str, filename: str) -> str:
         return rename_locals(src, filename)
     if kind == "hoist":
         return hoist_final_attrs(src)
+    if kind == "constname":
+        return name_constants(src)
     tree = ast.parse(src)
-    tree = {"flipcmp": FlipCmp, "ifswap": IfSwap, "nestand": NestAnd, "retlocal": RetLocal, "augassign": AugToAssign, "isnot": IsNot, "kwargs": KwArgs, "earlyreturn": EarlyReturn, "condlocal": CondLocal, "delegate": Delegate}[kind]().visit(tree)
+    tree = {"flipcmp": FlipCmp, "ifswap": IfSwap, "nestand": NestAnd, "retlocal": RetLocal, "augassign": AugToAssign, "isnot": IsNot, "kwargs": KwArgs, "earlyreturn": EarlyReturn, "condlocal": CondLocal, "delegate": Delegate, "chaincmp": ChainCmp, "demorgan": DeMorgan, "retternary": RetTernary}[kind]().visit(tree)
     ast.fix_missing_locations(tree)
     return ast.unparse(tree)
 
